@@ -34,6 +34,12 @@ mod imp {
     pub fn days_between(a: NaiveDate, b: NaiveDate) -> i64 {
         (a - b).num_days()
     }
+    pub fn date_from_days(days: SymInt) -> NaiveDate {
+        NaiveDate::from_sym_days(days)
+    }
+    pub fn days_of(d: NaiveDate) -> SymInt {
+        d.sym_days()
+    }
 }
 
 #[cfg(not(feature = "symbolic"))]
@@ -67,9 +73,23 @@ mod imp {
     pub fn days_between(a: NaiveDate, b: NaiveDate) -> i64 {
         (a - b).num_days()
     }
+    pub fn date_from_days(days: SymInt) -> NaiveDate {
+        NaiveDate::from_num_days_from_ce_opt(c(days) as i32).expect("native replay: day number out of range")
+    }
+    pub fn days_of(d: NaiveDate) -> SymInt {
+        use chrono::Datelike;
+        SymInt::Const(d.num_days_from_ce() as i64)
+    }
 }
 
 pub use imp::*;
+
+/// A fresh symbolic date in `lo..=hi` (inclusive, concrete bounds).
+pub fn fresh_date(name: &str, lo: NaiveDate, hi: NaiveDate) -> NaiveDate {
+    let l = days_of(lo).as_const().expect("concrete bound");
+    let h = days_of(hi).as_const().expect("concrete bound");
+    date_from_days(vrt::fresh_int(name, l, h))
+}
 
 /// (days since 1900-01-01) * 86400 + seconds of day, as a symbolic integer: total order on instants.
 pub fn instant_of(dt: NaiveDateTime) -> SymInt {
